@@ -331,7 +331,25 @@ impl<'r, 'c, 's, W: Write> Serializer for DatumSerializer<'r, 'c, 's, W> {
 				self.serialize_str(variant)
 			}
 			SchemaNode::Union(union) => {
-				self.serialize_union_unnamed(union, UnionVariantLookupKey::UnitVariant, |ser| {
+				// A unit variant named after the `null` branch designates that branch (that is
+				// what `#[derive(BuildSchema)]` maps it to), unless it is a symbol of an enum
+				// of the union
+				let is_enum_symbol = matches!(
+					union.per_type_lookup.unnamed(UnionVariantLookupKey::UnitVariant),
+					Some((_, SchemaNode::Enum(e))) if e.per_name_lookup.contains_key(variant)
+				);
+				let lookup_key = if variant == "Null"
+					&& !is_enum_symbol
+					&& union
+						.per_type_lookup
+						.unnamed(UnionVariantLookupKey::Null)
+						.is_some()
+				{
+					UnionVariantLookupKey::Null
+				} else {
+					UnionVariantLookupKey::UnitVariant
+				};
+				self.serialize_union_unnamed(union, lookup_key, |ser| {
 					ser.serialize_unit_variant(name, variant_index, variant)
 				})
 			}
